@@ -321,6 +321,27 @@ def close(a, b, rel=1e-9, abs_=1e-12):
     return d <= Fraction(abs_) + Fraction(rel) * max(abs(a), abs(b))
 
 
+def ops_equal(exp_tokens, out_tokens, rel=1e-10, abs_=1e-10, mod1=True):
+    """Compare two operation lists given as flat token lists (12 tokens per operation: 9 integer rotation entries,
+    3 translation components).  Rotations must agree exactly; translations within tolerance, modulo 1 when `mod1`
+    (an exact model and an f64 implementation may land on opposite sides of the wrap-around).  Returns None or a message."""
+    if len(exp_tokens) != len(out_tokens) or len(exp_tokens) % 12 != 0:
+        return f"length {len(out_tokens)} vs {len(exp_tokens)}"
+    for k in range(0, len(exp_tokens), 12):
+        if exp_tokens[k:k + 9] != out_tokens[k:k + 9]:
+            return f"operation {k // 12}: rotation {out_tokens[k:k+9]} vs {exp_tokens[k:k+9]}"
+        for a, b in zip(exp_tokens[k + 9:k + 12], out_tokens[k + 9:k + 12]):
+            if a == b:
+                continue
+            x, y = parse_num(a), parse_num(b)
+            d = x - y
+            if mod1:
+                d = d - round(d)
+            if abs(d) > Fraction(abs_) + Fraction(rel) * max(abs(x), abs(y)):
+                return f"operation {k // 12}: translation {float(y)} vs {float(x)}"
+    return None
+
+
 # ------------------------------------------------------------------------------------------------
 # known findings
 
